@@ -1,9 +1,9 @@
 (* The proof-internal evaluator [evalR]: exact integer arithmetic in the ring operations
    (Add/Sub/Mul/Neg are not range-checked), i32 checks on the operands of every non-ring node
-   (Div, DivCeil, Max, Min, Broadcast) and on constants/symbols, and the Broadcast precondition
-   as a distinct error.  It sits between the two machine evaluators:
+   (Div, DivCeil, Max, Min, Broadcast) and on constants/symbols, and the two preconditions
+   (Broadcast operands; symbols declared positive are non-negative) as distinct errors.  It sits between the two machine evaluators:
 
-      eval s e = Ok v /\ bcast_ok s e   ==>   evalR s e = Ok v          (evalR_of_eval)
+      eval s e = Ok v /\ bcast_ok s e /\ pos_ok s e  ==>  evalR s e = Ok v   (evalR_of_eval)
       evalR s e = Ok z                  ==>   evalw s e = Ok (wrap32 z)  (evalw_of_evalR)
 
    and every rewrite of canonicalize / simplify_canonical preserves [evalR s e = Ok z]
@@ -22,8 +22,8 @@ Definition chk2 (x y : Z) (k : res) : res := if in_i32 x && in_i32 y then k else
 Fixpoint evalR (s : env) (e : expr) : res :=
   match e with
   | Value z => if in_i32 z then Ok z else EOvf
-  | Var id _ => match s id with
-                | Some v => if in_i32 v then Ok v else EOvf
+  | Var id p => match s id with
+                | Some v => if in_i32 v then (if p && (v <? 0) then EPos else Ok v) else EOvf
                 | None => EMissing
                 end
   | Neg a => match evalR s a with Ok x => Ok (- x) | err => err end
@@ -51,13 +51,15 @@ Proof. intros Hx Hy. unfold chk2. apply in_i32_iff in Hx, Hy. now rewrite Hx, Hy
 
 (* ------------------------------------------------- eval  ==>  evalR *)
 Lemma evalR_of_eval s e v :
-  eval s e = Ok v -> bcast_ok s e = true -> evalR s e = Ok v.
+  eval s e = Ok v -> bcast_ok s e = true -> pos_ok s e = true -> evalR s e = Ok v.
 Proof.
-  unfold eval. revert v; induction e; intros v H Hb; cbn [evalm bcast_ok evalR] in *;
+  unfold eval. revert v; induction e; intros v H Hb Hp; cbn [evalm bcast_ok pos_ok evalR] in *;
     try assumption.
   all: try (split_hyps; apply bind2_ok in H as (x & y & Ha & Hb' & H);
             rewrite (IHe1 _ Ha) by assumption; rewrite (IHe2 _ Hb') by assumption;
             cbn [bind2]).
+  - destruct (s id); [|discriminate]. destruct (in_i32 z) eqn:E; [|discriminate].
+    destruct pos; cbn [andb]; [|exact H]. replace (z <? 0) with false by lia. exact H.
   - apply chk_false_ok in H as [-> _]. reflexivity.
   - apply chk_false_ok in H as [-> _]. reflexivity.
   - apply chk_false_ok in H as [-> _]. reflexivity.
@@ -69,7 +71,7 @@ Proof.
     unfold eval in *. rewrite Ha, Hb' in *.
     match goal with Hk : bc_pair_ok _ _ = true |- _ => rewrite Hk end. exact H.
   - destruct (evalm false s e) eqn:E; try discriminate.
-    rewrite (IHe _ eq_refl Hb). apply chk_false_ok in H as [-> _]. reflexivity.
+    rewrite (IHe _ eq_refl Hb Hp). apply chk_false_ok in H as [-> _]. reflexivity.
 Qed.
 
 (* ------------------------------------------------- evalR  ==>  evalw *)
@@ -98,7 +100,8 @@ Proof.
   unfold evalw. revert z; induction e; intros v H; cbn [evalm evalR] in *.
   - destruct (in_i32 z) eqn:E; inversion H; subst. apply in_i32_iff in E.
     now rewrite wrap32_id.
-  - destruct (s id); [|discriminate]. destruct (in_i32 z) eqn:E; inversion H; subst.
+  - destruct (s id); [|discriminate]. destruct (in_i32 z) eqn:E; [|discriminate].
+    destruct (pos && (z <? 0)); inversion H; subst.
     apply in_i32_iff in E. now rewrite wrap32_id.
   - apply bind2_ok in H as (x & y & Ha & Hb & H). inversion H; subst.
     rewrite (IHe1 _ Ha), (IHe2 _ Hb). cbn [bind2 chk]. now rewrite wrap32_add.
@@ -248,75 +251,78 @@ Lemma bc_pair_ok_sym x y : bc_pair_ok x y = bc_pair_ok y x.
 Proof. unfold bc_pair_ok. lia. Qed.
 
 (* ------------------------------------------ PartialEq implies equal values *)
-Lemma expr_eqb_sound s a : forall b, expr_eqb a b = true ->
-  forall z, evalR s a = Ok z <-> evalR s b = Ok z.
-Proof.
-  induction a; intros b0 E; destruct b0; cbn [expr_eqb] in E; try discriminate.
-  - (* Value *) apply Z.eqb_eq in E. subst. tauto.
-  - (* Var *) apply N.eqb_eq in E. subst. cbn. tauto.
-  - (* Add *)
-    intros v. apply orb_prop in E as [E|E]; apply andb_prop in E as [E1 E2].
-    + pose proof (IHa1 _ E1) as H1. pose proof (IHa2 _ E2) as H2. split; intros H;
-        apply evalR_add_inv in H as (x & y & Ha & Hb & ->); apply evalR_add;
-        try (now apply H1); try (now apply H2).
-    + pose proof (IHa1 _ E1) as H1. pose proof (IHa2 _ E2) as H2. split; intros H;
-        apply evalR_add_inv in H as (x & y & Ha & Hb & ->); rewrite Z.add_comm; apply evalR_add;
-        try (now apply H1); try (now apply H2).
-  - (* Sub *)
-    intros v. apply andb_prop in E as [E1 E2].
-    pose proof (IHa1 _ E1) as H1. pose proof (IHa2 _ E2) as H2. split; intros H;
-      apply evalR_sub_inv in H as (x & y & Ha & Hb & ->); apply evalR_sub;
-      try (now apply H1); try (now apply H2).
-  - (* Mul *)
-    intros v. apply orb_prop in E as [E|E]; apply andb_prop in E as [E1 E2].
-    + pose proof (IHa1 _ E1) as H1. pose proof (IHa2 _ E2) as H2. split; intros H;
-        apply evalR_mul_inv in H as (x & y & Ha & Hb & ->); apply evalR_mul;
-        try (now apply H1); try (now apply H2).
-    + pose proof (IHa1 _ E1) as H1. pose proof (IHa2 _ E2) as H2. split; intros H;
-        apply evalR_mul_inv in H as (x & y & Ha & Hb & ->); rewrite Z.mul_comm; apply evalR_mul;
-        try (now apply H1); try (now apply H2).
-  - (* Div *)
-    intros v. apply andb_prop in E as [E1 E2].
-    pose proof (IHa1 _ E1) as H1. pose proof (IHa2 _ E2) as H2. split; intros H;
-      apply evalR_div_inv in H as (x & y & Ha & Hb & Hx & Hy & Hy0 & -> & Hz); apply evalR_div; auto;
-      try (now apply H1); try (now apply H2).
-  - (* DivCeil *)
-    intros v. apply andb_prop in E as [E1 E2].
-    pose proof (IHa1 _ E1) as H1. pose proof (IHa2 _ E2) as H2. split; intros H;
-      apply evalR_divceil_inv in H as (x & y & Ha & Hb & Hx & Hy & Hy0 & -> & Hz);
-      apply evalR_divceil; auto; try (now apply H1); try (now apply H2).
-  - (* Max *)
-    intros v. apply orb_prop in E as [E|E]; apply andb_prop in E as [E1 E2].
-    + pose proof (IHa1 _ E1) as H1. pose proof (IHa2 _ E2) as H2. split; intros H;
-        apply evalR_max_inv in H as (x & y & Ha & Hb & Hx & Hy & ->); apply evalR_max; auto;
-        try (now apply H1); try (now apply H2).
-    + pose proof (IHa1 _ E1) as H1. pose proof (IHa2 _ E2) as H2. split; intros H;
-        apply evalR_max_inv in H as (x & y & Ha & Hb & Hx & Hy & ->); rewrite Z.max_comm;
-        apply evalR_max; auto; try (now apply H1); try (now apply H2).
-  - (* Min *)
-    intros v. apply orb_prop in E as [E|E]; apply andb_prop in E as [E1 E2].
-    + pose proof (IHa1 _ E1) as H1. pose proof (IHa2 _ E2) as H2. split; intros H;
-        apply evalR_min_inv in H as (x & y & Ha & Hb & Hx & Hy & ->); apply evalR_min; auto;
-        try (now apply H1); try (now apply H2).
-    + pose proof (IHa1 _ E1) as H1. pose proof (IHa2 _ E2) as H2. split; intros H;
-        apply evalR_min_inv in H as (x & y & Ha & Hb & Hx & Hy & ->); rewrite Z.min_comm;
-        apply evalR_min; auto; try (now apply H1); try (now apply H2).
-  - (* Broadcast *)
-    intros v. apply orb_prop in E as [E|E]; apply andb_prop in E as [E1 E2].
-    + pose proof (IHa1 _ E1) as H1. pose proof (IHa2 _ E2) as H2. split; intros H;
-        apply evalR_bc_inv in H as (x & y & Ha & Hb & Hx & Hy & Hp & ->); apply evalR_bc; auto;
-        try (now apply H1); try (now apply H2).
-    + pose proof (IHa1 _ E1) as H1. pose proof (IHa2 _ E2) as H2. split; intros H;
-        apply evalR_bc_inv in H as (x & y & Ha & Hb & Hx & Hy & Hp & ->); rewrite Z.max_comm;
-        apply evalR_bc; auto; try (now apply H1); try (now apply H2);
-        now rewrite bc_pair_ok_sym.
-  - (* Neg *)
-    intros v. pose proof (IHa _ E) as H1. split; intros H;
-      apply evalR_neg_inv in H as (x & Ha & ->); apply evalR_neg; now apply H1.
-Qed.
-
-Lemma expr_eqb_val s a b x y :
+Lemma expr_eqb_val s a : forall b x y,
   expr_eqb a b = true -> evalR s a = Ok x -> evalR s b = Ok y -> x = y.
 Proof.
-  intros E Ha Hb. apply (expr_eqb_sound s) with (z := x) in E. apply E in Ha. congruence.
+  induction a; intros b0 vx vy E Ha Hb; destruct b0; cbn [expr_eqb] in E; try discriminate.
+  - apply Z.eqb_eq in E. subst. congruence.
+  - apply N.eqb_eq in E. subst. cbn [evalR] in Ha, Hb.
+    destruct (s id0); [|discriminate]. destruct (in_i32 z); [|discriminate].
+    destruct (pos && (z <? 0)); [discriminate|]. destruct (pos0 && (z <? 0)); [discriminate|].
+    congruence.
+  - apply evalR_add_inv in Ha as (x1 & x2 & H1 & H2 & ->).
+    apply evalR_add_inv in Hb as (y1 & y2 & H3 & H4 & ->).
+    apply orb_prop in E as [E|E]; apply andb_prop in E as [E1 E2].
+    + rewrite (IHa1 _ _ _ E1 H1 H3), (IHa2 _ _ _ E2 H2 H4). reflexivity.
+    + rewrite (IHa1 _ _ _ E1 H1 H4), (IHa2 _ _ _ E2 H2 H3). lia.
+  - apply evalR_sub_inv in Ha as (x1 & x2 & H1 & H2 & ->).
+    apply evalR_sub_inv in Hb as (y1 & y2 & H3 & H4 & ->).
+    apply andb_prop in E as [E1 E2].
+    rewrite (IHa1 _ _ _ E1 H1 H3), (IHa2 _ _ _ E2 H2 H4). reflexivity.
+  - apply evalR_mul_inv in Ha as (x1 & x2 & H1 & H2 & ->).
+    apply evalR_mul_inv in Hb as (y1 & y2 & H3 & H4 & ->).
+    apply orb_prop in E as [E|E]; apply andb_prop in E as [E1 E2].
+    + rewrite (IHa1 _ _ _ E1 H1 H3), (IHa2 _ _ _ E2 H2 H4). reflexivity.
+    + rewrite (IHa1 _ _ _ E1 H1 H4), (IHa2 _ _ _ E2 H2 H3). lia.
+  - apply evalR_div_inv in Ha as (x1 & x2 & H1 & H2 & _ & _ & _ & -> & _).
+    apply evalR_div_inv in Hb as (y1 & y2 & H3 & H4 & _ & _ & _ & -> & _).
+    apply andb_prop in E as [E1 E2].
+    rewrite (IHa1 _ _ _ E1 H1 H3), (IHa2 _ _ _ E2 H2 H4). reflexivity.
+  - apply evalR_divceil_inv in Ha as (x1 & x2 & H1 & H2 & _ & _ & _ & -> & _).
+    apply evalR_divceil_inv in Hb as (y1 & y2 & H3 & H4 & _ & _ & _ & -> & _).
+    apply andb_prop in E as [E1 E2].
+    rewrite (IHa1 _ _ _ E1 H1 H3), (IHa2 _ _ _ E2 H2 H4). reflexivity.
+  - apply evalR_max_inv in Ha as (x1 & x2 & H1 & H2 & _ & _ & ->).
+    apply evalR_max_inv in Hb as (y1 & y2 & H3 & H4 & _ & _ & ->).
+    apply orb_prop in E as [E|E]; apply andb_prop in E as [E1 E2].
+    + rewrite (IHa1 _ _ _ E1 H1 H3), (IHa2 _ _ _ E2 H2 H4). reflexivity.
+    + rewrite (IHa1 _ _ _ E1 H1 H4), (IHa2 _ _ _ E2 H2 H3). lia.
+  - apply evalR_min_inv in Ha as (x1 & x2 & H1 & H2 & _ & _ & ->).
+    apply evalR_min_inv in Hb as (y1 & y2 & H3 & H4 & _ & _ & ->).
+    apply orb_prop in E as [E|E]; apply andb_prop in E as [E1 E2].
+    + rewrite (IHa1 _ _ _ E1 H1 H3), (IHa2 _ _ _ E2 H2 H4). reflexivity.
+    + rewrite (IHa1 _ _ _ E1 H1 H4), (IHa2 _ _ _ E2 H2 H3). lia.
+  - apply evalR_bc_inv in Ha as (x1 & x2 & H1 & H2 & _ & _ & _ & ->).
+    apply evalR_bc_inv in Hb as (y1 & y2 & H3 & H4 & _ & _ & _ & ->).
+    apply orb_prop in E as [E|E]; apply andb_prop in E as [E1 E2].
+    + rewrite (IHa1 _ _ _ E1 H1 H3), (IHa2 _ _ _ E2 H2 H4). reflexivity.
+    + rewrite (IHa1 _ _ _ E1 H1 H4), (IHa2 _ _ _ E2 H2 H3). lia.
+  - apply evalR_neg_inv in Ha as (x1 & H1 & ->). apply evalR_neg_inv in Hb as (y1 & H3 & ->).
+    rewrite (IHa _ _ _ E H1 H3). reflexivity.
+Qed.
+
+(* ------------------------------------------ is_positive for evalR values *)
+Lemma is_positive_R s e : forall z, evalR s e = Ok z -> is_positive e = true -> 0 <= z.
+Proof.
+  induction e; intros v H P; cbn [is_positive] in P; try discriminate.
+  - apply evalR_value_inv in H as [-> _]. lia.
+  - subst pos. cbn [evalR] in H. destruct (s id); [|discriminate].
+    destruct (in_i32 z); [|discriminate]. cbn [andb] in H.
+    destruct (z <? 0) eqn:E; inversion H; subst. lia.
+  - apply andb_prop in P as [P1 P2]. apply evalR_add_inv in H as (x & y & Hx & Hy & ->).
+    specialize (IHe1 _ Hx P1). specialize (IHe2 _ Hy P2). lia.
+  - apply andb_prop in P as [P1 P2]. apply evalR_mul_inv in H as (x & y & Hx & Hy & ->).
+    specialize (IHe1 _ Hx P1). specialize (IHe2 _ Hy P2). nia.
+  - apply andb_prop in P as [P1 P2].
+    apply evalR_div_inv in H as (x & y & Hx & Hy & _ & _ & Hy0 & -> & _).
+    specialize (IHe1 _ Hx P1). specialize (IHe2 _ Hy P2). nia.
+  - apply andb_prop in P as [P1 P2].
+    apply evalR_divceil_inv in H as (x & y & Hx & Hy & _ & _ & Hy0 & -> & _).
+    specialize (IHe1 _ Hx P1). specialize (IHe2 _ Hy P2). apply div_ceil_pos; lia.
+  - apply evalR_max_inv in H as (x & y & Hx & Hy & _ & _ & ->).
+    apply orb_prop in P as [P|P]; [specialize (IHe1 _ Hx P)|specialize (IHe2 _ Hy P)]; lia.
+  - apply andb_prop in P as [P1 P2]. apply evalR_min_inv in H as (x & y & Hx & Hy & _ & _ & ->).
+    specialize (IHe1 _ Hx P1). specialize (IHe2 _ Hy P2). lia.
+  - apply evalR_bc_inv in H as (x & y & Hx & Hy & _ & _ & Hp & ->).
+    apply bc_pair_ok_spec in Hp. lia.
 Qed.
